@@ -29,10 +29,11 @@ PROP = dict(
                "checked by the events suite on generated nested payloads), the Parquet tables of resource-stat events "
                "(only their names are modelled), float rounding of sums and of the mean (dyadic samples in the tie), the "
                "order in which glob/iterdir list files (observed, passed to the model). The per-job events.log files "
-               "and their aggregation into the node's log ARE in the model (Model/ReportsAgg.lean); the job and "
-               "run-jobs/submitter processes themselves are emulated by the events suite (their setup_event_logging "
-               "calls are read by the translator only: file name and open mode), and an aggregation is atomic (a "
-               "runner killed between the copy and the os.remove of one job file is not modelled).",
+               "and their aggregation into the node's log ARE in the model (Model/ReportsAgg.lean); job processes run "
+               "through the real jade.cli.run.run with a stub extension, the run-jobs and submitter processes are "
+               "emulated by the events suite (their setup_event_logging calls are read by the translator only: file "
+               "name and open mode), and an aggregation is atomic (a runner killed between the copy and the os.remove "
+               "of one job file is not modelled).",
     assumptions=[
         "timestamps are Python str (str(datetime.now()) or the stored string) and are compared as strings by code point, "
         "which is chronological order for the fixed-width format every JADE process writes",
